@@ -154,7 +154,27 @@ def _e2e_case(args):
     return out
 
 
+def replay_fixed(ctx, res):
+    from lark import Lark
+    for f in ctx['known']:
+        if f['id'] == 'F27' and f['status'] == 'fixed':
+            w = f['witness']
+            for parser in ('lalr', 'earley'):
+                t = Lark(w['grammar'], parser=parser).parse(w['text'])
+                if [str(c) for c in t.children[1].children] != ['x', 'x']:
+                    res.violation('regression of fixed finding F27: ' + f['what'], dict(w, parser=parser, tree=str(t)))
+            # the same sharing through the other operators
+            for op, n in (('*', 3), ('~2', 2), ('~1..3', 2), ('~60', 60), ('~50..60', 55), ('?', 1)):
+                g = 'start: a b\na: "x"%s "|"\nb: X%s\nX: "x"\n' % (op, op)
+                for parser in ('lalr', 'earley'):
+                    t = Lark(g, parser=parser).parse('x' * n + '|' + 'x' * n)
+                    res.case(['f27', op, parser], nontrivial=True)
+                    if len(t.children[1].children) != n or len(t.children[0].children) != 0:
+                        res.violation('x%s over an anonymous and a named use of the same terminal: the named occurrences are not that many children' % op, {'grammar': g, 'parser': parser, 'text': 'x' * n + '|' + 'x' * n, 'tree': str(t)[:300]})
+
+
 def run(ctx, res):
+    replay_fixed(ctx, res)
     rng = random.Random(ctx['seed'] * 1000003 + 9)
     tier = ctx['tier']
     deep = ctx['deepen']
